@@ -7,7 +7,7 @@ from typing import Dict, List, Optional, Set, Tuple
 
 from ..db import ProgramDB, FuncInfo, ClassInfo, AnalysisError, unparse, own_nodes, dotted
 from ..cfg import CFG, Node
-from ..facts import own_calls, call_attr, local_defs, bind_args, fn_params
+from ..facts import own_calls, call_attr, local_defs, bind_args, fn_params, resolve_call_target
 from .entries import is_eval_method_name
 from ..framework import inst, HOLDS, VIOLATION, UNDECIDED, INFO, Instance
 from ..abseval import AbsEval, State, const, TOP, TRUE, FALSE, NONE, fmt
@@ -280,6 +280,52 @@ def rule_vars_complete(db: ProgramDB) -> List[Instance]:
                                 f"sub-expression that differ only in those variables are served from one cache entry / suppressed as duplicates", line=m.lineno))
     if n == 0:
         raise AnalysisError("no _all_variable_instances_ implementation found for a class that evaluates sub-expressions")
+    # … of EVERY such sub-expression, whatever its kind: where the implementation walks a collection of sub-expressions (the arguments
+    # of a constructor / predicate), what an element contributes is not filtered by the element's type - an argument that is an
+    # attribute, an index, a call or a nested query is built on variables too
+    from ..boolexpr import guards_of
+    for c in sorted([se] + se.all_subclasses(), key=lambda k: k.qualname):
+        m = c.methods.get("_all_variable_instances_")
+        if m is None or m.cls is not c:
+            continue
+        for loop in [l for l in own_nodes(m.node) if isinstance(l, ast.For) and isinstance(l.target, ast.Name)]:
+            t = loop.target.id
+            adds = [x for st_ in loop.body for x in ast.walk(st_) if isinstance(x, ast.Attribute) and x.attr == "_all_variable_instances_"
+                    and isinstance(x.value, ast.Name) and x.value.id == t]
+            for a in adds:
+                st_ = a
+                while not isinstance(st_, ast.stmt):
+                    st_ = db.parent(st_)
+                gs = [g for g, pol in (guards_of(st_, loop.body) or []) if any(isinstance(y, ast.Call) and dotted(y.func) == "isinstance" for y in ast.walk(g))]
+                out.append(inst("VARS-COMPLETE", VIOLATION if gs else HOLDS, m, f"{m.short}[every element of {unparse(loop.iter)[:30]}]",
+                                "every element contributes its variables" if not gs else
+                                f"the variables of an element of `{unparse(loop.iter)}` are reported only under `{unparse(gs[0])}`: an argument that is an attribute / index / call / "
+                                f"nested query contributes nothing, so a variable the head mentions only through `p.name` is missing from what the rule requires of its "
+                                f"conditions - two satisfying assignments that differ only in it are taken for duplicates by a disjunction and one instance is not built",
+                                line=a.lineno))
+    # a node counts ITSELF among the variables only if it takes several values under one binding of the variables below it (a Variable, a
+    # flattened expression): a single-valued aggregate whose value is a fresh object per evaluation (a concatenation) would be a key
+    # that never compares equal across evaluations
+    var = db.cls("Variable")
+    dm = db.cls("DomainMapping")
+    for c in sorted([se] + se.all_subclasses(), key=lambda k: k.qualname):
+        m = c.methods.get("_all_variable_instances_")
+        if m is None or m.cls is not c:
+            continue
+        includes_self = any(isinstance(x, ast.Name) and x.id == "self" and not isinstance(db.parent(x), ast.Attribute)
+                            for r in own_nodes(m.node) if isinstance(r, (ast.Return, ast.Assign)) for x in ast.walk(r.value if r.value is not None else r))
+        if not includes_self:
+            continue
+        multi = c is var or c.is_subclass_of(var)
+        if not multi and c.is_subclass_of(dm):
+            am = c.lookup("_apply_mapping_")
+            multi = am is not None and (any(isinstance(l, (ast.For, ast.While)) and any(isinstance(y, (ast.Yield, ast.YieldFrom)) for y in ast.walk(l)) for l in own_nodes(am.node))
+                                        or any(isinstance(y, ast.YieldFrom) for y in own_nodes(am.node)))
+        out.append(inst("VARS-COMPLETE", HOLDS if multi else VIOLATION, m, f"{m.short}[counts itself among the variables]",
+                        "takes several values under one binding of the variables below it" if multi else
+                        f"{c.name} yields ONE value per evaluation and lists itself among the variables: the rows a for_all keeps per universal value then carry that value - a "
+                        f"fresh object each time it is evaluated - so the rows of two universal values never agree and the intersection is empty "
+                        f"(for_all(it, in_(it, concatenate(bx.items))) yields nothing)", line=m.lineno))
     return out
 
 
@@ -418,3 +464,39 @@ def rule_request_delegated(db: ProgramDB) -> List[Instance]:
     if n < 4:
         raise AnalysisError(f"only {n} delegation(s) between evaluation methods of one node found")
     return out
+
+
+# ---------------------------------------------------------------------------------- CONDITIONS-FORWARDED
+def rule_conditions_forwarded(db: ProgramDB) -> List[Instance]:
+    """The conditions of a query travel through the building functions as `*properties`: an(...) / the(...) / infer(...) hand them to
+    select_one_or_select_many_or_infer, which hands them to entity(...) or set_of(...), which hand them to the extraction of the
+    expression.  Whoever takes conditions as varargs and builds the query by calling another building function that takes them too
+    passes them ON, in every arm (the short form an([x, y], cond) takes the list arm): a call that leaves them out builds the query
+    without its conditions - every value of the selected variables is returned."""
+    from ..boolexpr import guards_of
+    out = []
+    n = 0
+    takers = {f.name: f for f in db.all_functions() if f.module == "entity" and f.cls is None and f.node.args.vararg is not None}
+    for fn in sorted(takers.values(), key=lambda f: f.qualname):
+        v = fn.node.args.vararg.arg
+        for call in own_calls(fn):
+            t = resolve_call_target(db, fn, call)
+            if not (isinstance(t, FuncInfo) and t.name in takers and t.node.args.vararg.arg == v):
+                continue            # only functions that take the same thing (the conditions of the query being built) under the same name
+            n += 1
+            forwards = any(isinstance(a, ast.Starred) and isinstance(a.value, ast.Name) and a.value.id == v for a in call.args)
+            st_ = call
+            while not isinstance(st_, ast.stmt):
+                st_ = db.parent(st_)
+            none_given = any((isinstance(g, ast.UnaryOp) and isinstance(g.op, ast.Not) and unparse(g.operand) == v and pol) or (unparse(g) == v and not pol)
+                             or (isinstance(g, ast.BoolOp) and any(isinstance(x, ast.UnaryOp) and isinstance(x.op, ast.Not) and unparse(x.operand) == v for x in g.values) and pol)
+                             for g, pol in (guards_of(st_, fn.node.body) or []))
+            ok = forwards or none_given
+            out.append(inst("CONDITIONS-FORWARDED", HOLDS if ok else VIOLATION, fn, f"{fn.short}[{unparse(call)[:50]}]",
+                            "the conditions are passed on" + (" (or there are none on this path)" if none_given and not forwards else "") if ok else
+                            f"`{unparse(call)}` builds the query without `*{v}`: the conditions given to {fn.name}(...) are dropped on this arm - an([x, combined], in_(x, combined)) "
+                            f"returns every value of x", line=call.lineno))
+    if n < 4:
+        raise AnalysisError(f"only {n} forwarding calls found in the entity module")
+    return out
+
